@@ -102,6 +102,7 @@ class SimWrappedUnixTransport(_DescriptorPassing, SimTransport):
 
 
 _unix_endpoints = [0]
+_tcp_endpoints = [0]
 
 
 class Endpoint:
@@ -113,7 +114,14 @@ class Endpoint:
             # every other UNIX endpoint is a wrapped one
             _unix_endpoints[0] += 1
             transport = (SimWrappedUnixTransport if _unix_endpoints[0] % 2 == 0 else SimUnixTransport)(creds, name)
-        self.t = transport or SimTransport(creds, name)
+        if transport is None:
+            transport = SimTransport(creds, name)
+            _tcp_endpoints[0] += 1
+            if _tcp_endpoints[0] % 2 == 0:
+                # every other non-UNIX endpoint says what twisted's TCP transports say about themselves
+                from zope.interface import alsoProvides
+                alsoProvides(transport, interfaces.ITCPTransport)
+        self.t = transport
         self.crashes = []        # exceptions that escaped dataReceived
         self.lost = 0
         self.name = name
